@@ -118,6 +118,34 @@ lemma('key_lemma',
                               J.pyeq_l(J.flat(ks), J.flat(ls)) == J.jeq_k(ks, ls)))],
       props=P18)
 
+# C07: two subbuild calls select the same cache slot iff same name and JSON-equal arguments
+from pyvc.sorts import hkey      # noqa: E402
+n1, n2 = z3.Consts('ln1 ln2', StrS)
+a2, b2 = z3.Consts('la2 lb2', PyV)
+
+
+def _key3(n, x, y):
+    return PyV.PList(PyVs.cons(PyV.PStr(n), PyVs.cons(x, PyVs.cons(y, PyVs.nil))))
+
+
+def _tup4(n, x, y):
+    return PyV.PTuple(PyVs.cons(PyV.PInt(0), PyVs.cons(PyV.PStr(n), PyVs.cons(
+        x, PyVs.cons(y, PyVs.nil)))))
+
+
+lemma('key3_shape', [Part(a, [b, n1], J.hsh(_key3(n1, a, b)) == _tup4(n1, J.hsh(a), J.hsh(b)))],
+      props=['C07', 'C08'], induct=False)
+h1, h2, h3, h4 = z3.Consts('lh1 lh2 lh3 lh4', PyV)
+lemma('tup4_eq', [Part(h1, [h2, h3, h4, n1, n2],
+                       J.pyeq(_tup4(n1, h1, h2), _tup4(n2, h3, h4))
+                       == And(n1 == n2, J.pyeq(h1, h3), J.pyeq(h2, h4)))],
+      props=['C07', 'C08'], induct=False)
+lemma('subbuild_key_identity', [Part(a, [b, a2, b2, n1, n2], Implies(
+    And(J.sanitized(a), J.sanitized(b), J.sanitized(a2), J.sanitized(b2)),
+    (hkey(J.hsh(_key3(n1, a, b))) == hkey(J.hsh(_key3(n2, a2, b2))))
+    == And(n1 == n2, J.jeq(a, a2), J.jeq(b, b2))))],
+      props=['C07', 'C08'], uses=['key_lemma', 'DICT_KEYS', 'key3_shape', 'tup4_eq'], induct=False)
+
 # hashable forms of sanitized values are tuples/atoms only (what dict lookup compares with ==)
 # ---------------------------------------------------------------------------------------------
 # to_hashable's loop: looking the sorted keys up again gives the items back
